@@ -10,6 +10,12 @@
      C <cps> | tok tok ... | w ; w ; ...   CollapseIdentifiers::parse, likewise
      J <cps> | w ; w ; ...         Document::new(text, IsolateEnglish(PlainEnglish))       (document_plain_ie)
      K <cps> | w ; w ; ...         Document::new(text, CollapseIdentifiers(PlainEnglish))  (document_plain_ci)
+     M <0|1> <cps> | code n rs re ...   Markdown::parse over the recorded pulldown-cmark event stream (C02Markdown.markdown_parse);
+                                   0|1 = ignore_link_title; an event = arm of the match (0 Start with n = tag: 0 Paragraph 1 Link
+                                   2 Heading 3 Item 4 TableCell 5 Emphasis 6 Strong 7 Strikethrough 8 CodeBlock 9 List 10 other;
+                                   1 End(breaking) 2 End(other) 3 SoftBreak 4 HardBreak 5 Code/Math 6 Text 7 Html 8 other),
+                                   payload char count, byte range -> "K1|K0 O tok ..." (K = md_contractb of the stream)
+     N <0|1> <cps> | code n rs re ...   Document::new(text, Markdown)   (document_markdown)
    token (output) = start,end,KIND with KIND one of
      W | P:<VariantName> | P:Quote:<twin|-> | P:Currency:<Name> | D | N:<f64 bits hex>:<radix>:<precision>:<Suffix|->
      | S:<n> | NL:<n> | E | U | H | X | PB | R
@@ -100,6 +106,19 @@ let known_of_str (s : string) : n list list =
       if w = "" then None else if w = "e" then Some [] else Some (text_of_line w))
     (String.split_on_char ';' s)
 
+let tag_of_int = function
+  | 0 -> TParagraph | 1 -> TLink | 2 -> THeading | 3 -> TItem | 4 -> TTableCell | 5 -> TEmphasis | 6 -> TStrong
+  | 7 -> TStrikethrough | 8 -> TCodeBlock | 9 -> TList | _ -> TOtherTag
+let rec events_of_ints (l : int list) : mevent list =
+  match l with
+  | code :: n :: rs :: re :: rest ->
+      let ev = match code with
+        | 0 -> MStart (tag_of_int n) | 1 -> MEndBreaking | 2 -> MEndOther | 3 -> MSoftBreak | 4 -> MHardBreak
+        | 5 -> MCodeLike (nat_of_int n) | 6 -> MText (nat_of_int n) | 7 -> MHtml (nat_of_int n) | _ -> MOther in
+      { me_ev = ev; me_rs = nat_of_int rs; me_re = nat_of_int re } :: events_of_ints rest
+  | [] -> []
+  | _ -> failwith "bad event list"
+
 let () =
   iter_lines (fun l ->
     if String.length l = 0 then print_newline () else
@@ -135,5 +154,19 @@ let () =
          | [src; known] ->
              let dict = dict_of (known_of_str known) in
              print_res ((if l.[0] = 'J' then document_plain_ie else document_plain_ci) (uni_now ()) dict (text_of_line src))
+         | _ -> print_endline "?")
+    | 'M' | 'N' ->
+        (match split_bar body with
+         | [src; evs] ->
+             (match List.filter (fun w -> w <> "") (String.split_on_char ' ' src) with
+              | ilt :: cps ->
+                  let text = List.map (fun w -> n_of_int (int_of_string w)) cps in
+                  let evs = events_of_ints (List.map int_of_string (List.filter (fun w -> w <> "") (String.split_on_char ' ' evs))) in
+                  let ilt = (ilt = "1") in
+                  if l.[0] = 'M' then begin
+                    print_string (if md_contractb (encode text) (nat_of_int 0) (nat_of_int 0) evs then "K1 " else "K0 ");
+                    print_res (markdown_parse (uni_now ()) ilt text evs)
+                  end else print_res (document_markdown (uni_now ()) ilt text evs)
+              | [] -> print_endline "?")
          | _ -> print_endline "?")
     | _ -> print_endline "?")
